@@ -608,72 +608,96 @@ func init() {
 				if lit == nil {
 					continue
 				}
-				fc := c.cfgOf(u, lit)
-				cls := func(ex ast.Expr) (string, bool) {
-					be, ok := ast.Unparen(ex).(*ast.BinaryExpr)
-					if !ok {
-						return "", false
-					}
-					ce, ok := ast.Unparen(be.X).(*ast.CallExpr)
-					if !ok || len(ce.Args) != 1 || types.ExprString(ce.Fun) != "len" || identObj(info, ce.Args[0]) != allowed {
-						return "", false
-					}
-					k, isC := intConst(info, be.Y)
-					if !isC {
-						return "", false
-					}
-					switch {
-					case be.Op == token.EQL && k == 0, be.Op == token.LSS && k == 1, be.Op == token.LEQ && k == 0:
-						return "empty", false
-					case be.Op == token.NEQ && k == 0, be.Op == token.GTR && k == 0, be.Op == token.GEQ && k == 1:
-						return "empty", true
-					}
-					return "", false
-				}
-				nonEmpty := fc.edgesEntailing(cls, func(v map[string]bool) bool { return v["$has:empty"] && !v["empty"] })
-				// refusals for a mismatching type: WrongType errors returned after the scan (not the
-				// "input is not a sorted map" test that precedes the key lookup)
-				wrong := c.LookupPkgObj("lisp/lisplib/libschema.WrongType")
 				ord := &ordinal{}
-				// position of the scanning loop / helper call over `allowed`
-				var scanPos token.Pos
-				ast.Inspect(lit.Body, func(m ast.Node) bool {
-					switch x := m.(type) {
-					case *ast.RangeStmt:
-						if identObj(info, x.X) == allowed && !scanPos.IsValid() {
-							scanPos = x.Pos()
-						}
-					case *ast.CallExpr:
-						for _, a := range x.Args {
-							if identObj(info, a) == allowed && !scanPos.IsValid() {
-								scanPos = x.Pos()
-							}
-						}
-					}
-					return true
-				})
-				for _, b := range fc.G.Blocks {
-					if !fc.Live(b) {
-						continue
-					}
-					for _, n := range b.Nodes {
-						rs, ok := n.(*ast.ReturnStmt)
-						if !ok || len(rs.Results) != 1 || !scanPos.IsValid() || rs.Pos() < scanPos {
-							continue
-						}
-						ce, ok := ast.Unparen(rs.Results[0]).(*ast.CallExpr)
-						if !ok || len(ce.Args) == 0 || wrong == nil || identObjOrSel(info, ce.Args[0]) != wrong {
-							continue
-						}
-						construct := ord.next(e.Name + ": wrong-type refusal after the scan")
-						if len(nonEmpty) > 0 && !fc.reachableAvoiding(b, nonEmpty) {
-							obs = append(obs, mkOb(c, rid, u, construct, rs, Proved, "applies only when a type list was given", true))
-						} else {
-							obs = append(obs, mkOb(c, rid, u, construct, rs, Violated, "with no type list the scan over the allowed types finds nothing and this refusal applies to every PRESENT key: ("+e.Name+" \"a\") rejects (sorted-map \"a\" 1), although the type list is optional", true))
+				obs = append(obs, c.optionalTypeListCheck(rid, e.Name, u, lit, allowed, ord, 0)...)
+			}
+			return obs
+		}})
+}
+
+// optionalTypeListCheck: inside body (a validator closure, or a helper the
+// closure hands the list to) every wrong-type refusal that follows the scan of
+// `allowed` is reachable only where the list is known not to be empty.
+func (c *Ctx) optionalTypeListCheck(rid, ename string, u FuncUnit, lit *ast.FuncLit, allowed types.Object, ord *ordinal, depth int) []Obligation {
+	var obs []Obligation
+	info := u.Pkg.TypesInfo
+	var bodyNode ast.Node = u.Decl.Body
+	if lit != nil {
+		bodyNode = lit.Body
+	}
+	fc := c.cfgOf(u, lit)
+	cls := func(ex ast.Expr) (string, bool) {
+		be, ok := ast.Unparen(ex).(*ast.BinaryExpr)
+		if !ok {
+			return "", false
+		}
+		ce, ok := ast.Unparen(be.X).(*ast.CallExpr)
+		if !ok || len(ce.Args) != 1 || types.ExprString(ce.Fun) != "len" || identObj(info, ce.Args[0]) != allowed {
+			return "", false
+		}
+		k, isC := intConst(info, be.Y)
+		if !isC {
+			return "", false
+		}
+		switch {
+		case be.Op == token.EQL && k == 0, be.Op == token.LSS && k == 1, be.Op == token.LEQ && k == 0:
+			return "empty", false
+		case be.Op == token.NEQ && k == 0, be.Op == token.GTR && k == 0, be.Op == token.GEQ && k == 1:
+			return "empty", true
+		}
+		return "", false
+	}
+	nonEmpty := fc.edgesEntailing(cls, func(v map[string]bool) bool { return v["$has:empty"] && !v["empty"] })
+	wrong := c.LookupPkgObj("lisp/lisplib/libschema.WrongType")
+	// position of the scanning loop / helper call over `allowed`
+	var scanPos token.Pos
+	ast.Inspect(bodyNode, func(m ast.Node) bool {
+		switch x := m.(type) {
+		case *ast.RangeStmt:
+			if identObj(info, x.X) == allowed && !scanPos.IsValid() {
+				scanPos = x.Pos()
+			}
+		case *ast.CallExpr:
+			for k, a := range x.Args {
+				if identObj(info, a) != allowed {
+					continue
+				}
+				if !scanPos.IsValid() {
+					scanPos = x.Pos()
+				}
+				// the list is handed to a helper of the package: the refusal may be written there
+				if h := originOf(Callee(info, x)); h != nil && depth < 2 && h.Pkg() == u.Obj.Pkg() {
+					if hd := c.declOf[h]; hd != nil && hd.Body != nil {
+						sig := h.Type().(*types.Signature)
+						if k < sig.Params().Len() {
+							obs = append(obs, c.optionalTypeListCheck(rid, ename, FuncUnit{h, hd, c.pkgOf[hd]}, nil, sig.Params().At(k), ord, depth+1)...)
 						}
 					}
 				}
 			}
-			return obs
-		}})
+		}
+		return true
+	})
+	for _, b := range fc.G.Blocks {
+		if !fc.Live(b) {
+			continue
+		}
+		for _, n := range b.Nodes {
+			rs, ok := n.(*ast.ReturnStmt)
+			if !ok || len(rs.Results) != 1 || !scanPos.IsValid() || rs.Pos() < scanPos {
+				continue
+			}
+			ce, ok := ast.Unparen(rs.Results[0]).(*ast.CallExpr)
+			if !ok || len(ce.Args) == 0 || wrong == nil || identObjOrSel(info, ce.Args[0]) != wrong {
+				continue
+			}
+			construct := ord.next(ename + ": wrong-type refusal after the scan")
+			if len(nonEmpty) > 0 && !fc.reachableAvoiding(b, nonEmpty) {
+				obs = append(obs, mkOb(c, rid, u, construct, rs, Proved, "applies only when a type list was given", true))
+			} else {
+				obs = append(obs, mkOb(c, rid, u, construct, rs, Violated, "with no type list the scan over the allowed types finds nothing and this refusal applies to every PRESENT key: ("+ename+" \"a\") rejects (sorted-map \"a\" 1), although the type list is optional", true))
+			}
+		}
+	}
+	return obs
 }
